@@ -25,6 +25,8 @@ type Scenario struct {
 	Family   string `json:"family,omitempty"`
 	Twin     bool   `json:"twin,omitempty"` // run an ideal node (never restarted, never crashed) in lockstep and log both
 	Lean     bool   `json:"lean,omitempty"` // log digests instead of full states (long histories)
+	Snap     int    `json:"snap,omitempty"` // attach a state-sync snapshot store taking a snapshot every `snap` blocks
+	Det      bool   `json:"det,omitempty"`  // log the observable outputs (obs) of every call without a twin: joined with a second process' run afterwards (C08)
 }
 
 // Step is one scenario step.
@@ -33,13 +35,14 @@ type Step struct {
 	Txs      []TxSpec `json:"txs,omitempty"`
 	Absent   []string `json:"absent,omitempty"`
 	Evidence []string `json:"evidence,omitempty"`
-	Dt       int64    `json:"dt,omitempty"`    // extra seconds added to the clock before this block
-	Hour     int      `json:"hour,omitempty"`  // 1..24: move the clock forward to the next time with hour-1 (UTC)
-	N        int      `json:"n,omitempty"`     // skip: number of empty blocks
-	K        int      `json:"k,omitempty"`     // block: the process dies after the k-th database write of this block's commit
-	After    string   `json:"after,omitempty"` // block: the process dies after the first commit write whose label has this prefix
+	Dt       int64    `json:"dt,omitempty"`     // extra seconds added to the clock before this block
+	Hour     int      `json:"hour,omitempty"`   // 1..24: move the clock forward to the next time with hour-1 (UTC)
+	N        int      `json:"n,omitempty"`      // skip: number of empty blocks
+	K        int      `json:"k,omitempty"`      // block: the process dies after the k-th database write of this block's commit
+	After    string   `json:"after,omitempty"`  // block: the process dies after the first commit write whose label has this prefix
 	AfterN   int      `json:"afterN,omitempty"` // block: ... after the afterN-th such write
-	Quiet    bool     `json:"quiet,omitempty"` // skip: only the last two blocks are logged step by step; the others end in one "Jump" record
+	Align    bool     `json:"align,omitempty"`  // export_import: first run empty blocks up to the next stake-recalculation height (no pending stake updates at the export)
+	Quiet    bool     `json:"quiet,omitempty"`  // skip: only the last two blocks are logged step by step; the others end in one "Jump" record
 }
 
 // RecTx is the abstract description of a delivered transaction (ground truth included).
@@ -90,20 +93,22 @@ type RecEnd struct {
 
 // Obs is what an outside observer (consensus engine, API client) can see of a node after a call.
 type Obs struct {
-	Code     uint32 `json:"code"`
-	Gas      int64  `json:"gas"`
-	TagsD    string `json:"tagsD"`
-	Data     string `json:"data"`
-	Updates  string `json:"updates"`
-	Hash     string `json:"hash"`     // app hash returned by Commit / Info
-	Height   int64  `json:"height"`   // Info().LastBlockHeight
-	StD      string `json:"stD"`      // digest of the memory projection (queries on the current state)
-	DiskD    string `json:"diskD"`    // digest of the export of the committed state
-	Emission string `json:"emission"` // emission as the node reports it
-	Versions string `json:"versions"`
-	Vals     string `json:"vals"`
-	Price    string `json:"price"`
-	Panic    string `json:"panic"`
+	Code     uint32            `json:"code"`
+	Gas      int64             `json:"gas"`
+	TagsD    string            `json:"tagsD"`
+	Data     string            `json:"data"`
+	Updates  string            `json:"updates"`
+	Hash     string            `json:"hash"`     // app hash returned by Commit / Info
+	Height   int64             `json:"height"`   // Info().LastBlockHeight
+	StD      string            `json:"stD"`      // digest of the memory projection (queries on the current state)
+	DiskD    string            `json:"diskD"`    // digest of the export of the committed state
+	Emission string            `json:"emission"` // emission as the node reports it
+	Versions string            `json:"versions"`
+	Vals     string            `json:"vals"`
+	Price    string            `json:"price"`
+	Panic    string            `json:"panic"`
+	Snap     string            `json:"snap,omitempty"` // state sync: height/format/chunks/hash/metadata of the snapshot at this height
+	StF      map[string]string `json:"stF,omitempty"`  // export/import: digest per field of the normalised state (names what differs)
 }
 
 // Rec is one trace record (one ABCI call or harness step).
@@ -131,6 +136,8 @@ type Rec struct {
 	Obs    *Obs        `json:"obs,omitempty"`   // twin scenarios: what node A shows
 	Ideal  *Obs        `json:"ideal,omitempty"` // twin scenarios: what the ideal node shows
 	Fault  string      `json:"fault,omitempty"` // crash: label of the last write that reached the disk
+	RT     *RoundTrip  `json:"rt,omitempty"`    // export/import: the exported state of the original chain (normalised digests)
+	RT2    *RoundTrip  `json:"rt2,omitempty"`   // export/import: the export of the new chain right after InitChain
 }
 
 // RecCfg carries the world constants the trace spec needs (first record of every scenario).
@@ -210,18 +217,20 @@ type builtBlock struct {
 }
 
 type runCtx struct {
-	r     *Runner
-	sc    *Scenario
-	nd    *Node
-	id    *Node // ideal twin (nil unless sc.Twin)
-	u     *Universe
-	iu    *Universe
-	tb    *txBuilder
-	i     int
-	h     uint64 // height of the last committed block
-	clock int64
-	dead  bool
-	idead bool
+	r        *Runner
+	sc       *Scenario
+	nd       *Node
+	id       *Node // ideal twin (nil unless sc.Twin)
+	u        *Universe
+	iu       *Universe
+	tb       *txBuilder
+	i        int
+	h        uint64 // height of the last committed block
+	clock    int64
+	dead     bool
+	idead    bool
+	imported bool // the node under observation was started from an export of the (now reference) node: compare in normalised form
+	folded   bool // ... and the export had pending stake updates, which the import folds into the stakes one period early
 }
 
 func (c *runCtx) rec(kind string, h uint64) *Rec {
@@ -247,7 +256,10 @@ func (c *runCtx) proj(rec *Rec, h uint64) {
 				rec.St = a
 			}
 			if rec.Obs != nil {
-				rec.Obs.StD = stateDigest(a, rec.Kind)
+				rec.Obs.StD = c.stD(a, rec.Kind)
+				if c.imported {
+					rec.Obs.StF = roundTripOf(a, c.folded).Fields
+				}
 				rec.Obs.Emission = a.Emission
 				rec.Obs.Versions = digest(a.Versions)
 				rec.Obs.Price = digest(a.PriceRec)
@@ -258,7 +270,10 @@ func (c *runCtx) proj(rec *Rec, h uint64) {
 		var a *Abs
 		res := guard(func() { a = ProjectMem(c.id, c.iu, h) })
 		if res.Panic == "" {
-			rec.Ideal.StD = stateDigest(a, rec.Kind)
+			rec.Ideal.StD = c.stD(a, rec.Kind)
+			if c.imported {
+				rec.Ideal.StF = roundTripOf(a, c.folded).Fields
+			}
 			rec.Ideal.Emission = a.Emission
 			rec.Ideal.Versions = digest(a.Versions)
 			rec.Ideal.Price = digest(a.PriceRec)
@@ -291,7 +306,7 @@ func (c *runCtx) diskProjection(rec *Rec) {
 		ar := ReadAppRecords(c.nd.Disk)
 		rec.App = &ar
 		if rec.Obs != nil {
-			rec.Obs.DiskD = digest(d)
+			rec.Obs.DiskD = c.diskD(d)
 			rec.Obs.Vals = ar.Vals
 		}
 	})
@@ -305,7 +320,7 @@ func (c *runCtx) diskProjection(rec *Rec) {
 			c.iu.AbsorbExport(&st)
 			d := ProjectDisk(c.id, &st, c.iu)
 			d.H = rec.H
-			rec.Ideal.DiskD = digest(d)
+			rec.Ideal.DiskD = c.diskD(d)
 			rec.Ideal.Vals = ReadAppRecords(c.id.Disk).Vals
 		})
 		if ires.Panic != "" {
@@ -318,7 +333,24 @@ func (c *runCtx) twinObs(rec *Rec) {
 	if c.id != nil {
 		rec.Obs = &Obs{}
 		rec.Ideal = &Obs{}
+	} else if c.sc.Det {
+		rec.Obs = &Obs{}
 	}
+}
+
+// after an export/import round trip the two chains are compared in the order-free, recalculation-insensitive form
+func (c *runCtx) stD(a *Abs, kind string) string {
+	if c.imported {
+		return digest(normalise(a, c.folded))
+	}
+	return stateDigest(a, kind)
+}
+
+func (c *runCtx) diskD(a *Abs) string {
+	if c.imported {
+		return digest(normalise(a, c.folded))
+	}
+	return digest(a)
 }
 
 // RunScenario executes one scenario on a fresh node.
@@ -334,14 +366,18 @@ func (r *Runner) RunScenario(sc *Scenario) {
 	}
 	r.seq++
 	dir := fmt.Sprintf("%s/n%d", r.WorkDir, r.seq)
-	nd, res := NewNode("A", w, n, backend, dir)
-	defer nd.Close()
+	nd, res := NewNodeSnap("A", w, n, backend, dir, sc.Snap)
 	c := &runCtx{r: r, sc: sc, nd: nd, u: NewUniverse()}
+	defer func() {
+		c.nd.Close()
+		if c.id != nil {
+			c.id.Close()
+		}
+	}()
 	if sc.Twin {
 		r.seq++
 		var ires CallResult
-		c.id, ires = NewNode("I", w, n, "mem", fmt.Sprintf("%s/n%d", r.WorkDir, r.seq))
-		defer c.id.Close()
+		c.id, ires = NewNodeSnap("I", w, n, "mem", fmt.Sprintf("%s/n%d", r.WorkDir, r.seq), sc.Snap)
 		c.iu = NewUniverse()
 		c.iu.Checks = c.u.Checks
 		if ires.Panic != "" {
@@ -390,6 +426,15 @@ func (r *Runner) RunScenario(sc *Scenario) {
 			}
 		case "restart":
 			c.restart("Restart")
+		case "statesync":
+			c.stateSync()
+		case "export_import":
+			for st.Align && !c.dead && c.h%c.nd.W.StakePeriod != 0 {
+				c.block(&Step{Op: "block"})
+			}
+			if !c.dead {
+				c.exportImport()
+			}
 		default:
 			panic("unknown step op " + st.Op)
 		}
@@ -458,6 +503,18 @@ func (c *runCtx) quietBlocks(n int, absent []string) {
 			step = "Commit"
 			_, res = nd.Commit()
 		}
+		if c.id != nil && !c.idead { // the reference twin executes the same block
+			ires := c.id.Begin(req)
+			if ires.Panic == "" {
+				_, ires = c.id.End(h)
+			}
+			if ires.Panic == "" {
+				_, ires = c.id.Commit()
+			}
+			if ires.Panic != "" {
+				c.idead = true
+			}
+		}
 		if res.Panic != "" {
 			rec := c.rec(step, h)
 			c.fail(rec, res)
@@ -468,6 +525,8 @@ func (c *runCtx) quietBlocks(n int, absent []string) {
 		c.r.Stats["blocks"]++
 	}
 	rec := c.rec("Jump", c.h)
+	c.twinObs(rec)
+	c.infoObs(rec)
 	c.diskProjection(rec)
 	c.proj(rec, c.h)
 	c.r.emit(rec)
